@@ -480,6 +480,10 @@ func genJoinerText(t *rapid.T, fe *fontEntry, maxLen int) []rune {
 }
 
 func genCase(t *rapid.T, fonts []*fontEntry, cum []int) (*fontEntry, *Case) {
+	// a solid stratum of generated fonts (synth_test.go): 1 case in 6
+	if rapid.IntRange(0, 5).Draw(t, "synthStratum") == 0 {
+		return genSynthCase(t)
+	}
 	w := rapid.IntRange(0, cum[len(cum)-1]-1).Draw(t, "font")
 	fe := fonts[sort.SearchInts(cum, w+1)]
 	c := &Case{Font: fe.rel, Index: fe.index}
